@@ -2,10 +2,11 @@
 
 stdin: one JSON document {"work": <scratch dir>, "lookup": [...], "tests": bool, "env": [...]};  stdout: 'C16OUT' + JSON.
 
-lookup case = {"policy": "FIND_ALL"|"FIND_FIRST", "fs": null | [relative .j2 paths], "pkg": null | [relative .j2 paths],
-               "seq": [pydsdl class names], "get": [template names]}
-  -> {"res": [str(path) | null per lookup], "src": [ "U"|"P"|null per lookup: which file filter_type_to_template's name loads ],
-      "get": ["U"|"P"|null per name]}        (file contents are "U:<rel>" in the user directory, "P:<rel>" in the package)
+lookup case = {"policy": "FIND_ALL"|"FIND_FIRST", "fs": null | [relative paths of the first user dir], "fs_more": [[...], ...] (further
+               user dirs, searched in this order), "pkg": null | [relative paths], "seq": [pydsdl class names], "get": [names]}
+  -> {"res": [str(path) | null per lookup], "src": ["U<i>:<rel>"|"P:<rel>"|null per lookup: the file that
+      get_source(filter_type_to_template's name) loads], "get": ["U<i>:<rel>"|"P:<rel>"|null per name]}
+      (the content of every file is its own tag: "U<i>:<rel>" in user dir i, "P:<rel>" in the package)
 tests -> {"names": [...all DSDL test names...], "env_has": {lang: [names missing from env.tests]},
           "values": [{"cls": class name, "dt": class name | null, "res": {test name: bool}}]}   on real parsed pydsdl objects
 env case = {"lang": str, "allow": bool, "globals": {name: int}, "filters": {name: int}, "tests": {name: int}, "dsdl": bool,
@@ -45,9 +46,10 @@ def run_lookup(work, cases):
     from nunavut.jinja.loaders import DSDLTemplateLoader
     from nunavut._utilities import ResourceSearchPolicy
     from nunavut.jinja.jinja2 import TemplateNotFound
-    user = os.path.join(work, 'user')
+    users = [os.path.join(work, 'user%d' % i) for i in range(4)]
     pk = os.path.join(work, 'pk', PKG, 'templates')
-    os.makedirs(user, exist_ok=True)
+    for u in users:
+        os.makedirs(u, exist_ok=True)
     os.makedirs(pk, exist_ok=True)
     open(os.path.join(work, 'pk', PKG, '__init__.py'), 'w').close()
     open(os.path.join(pk, '__init__.py'), 'w').close()
@@ -55,27 +57,55 @@ def run_lookup(work, cases):
     out = []
     for c in cases:
         try:
-            populate(user, c['fs'], 'U')
+            roots = None if c['fs'] is None else [c['fs']] + list(c.get('fs_more') or [])
+            for i, u in enumerate(users):
+                populate(u, roots[i] if roots is not None and i < len(roots) else [], 'U%d' % i)
             populate(pk, c['pkg'], 'P')
             loader = DSDLTemplateLoader(
-                templates_dirs=[pathlib.Path(user)] if c['fs'] is not None else None,
+                templates_dirs=[pathlib.Path(u) for u in users[:len(roots)]] if roots is not None else None,
                 package_name_for_templates=PKG if c['pkg'] is not None else None,
                 search_policy=ResourceSearchPolicy[c['policy']])
 
             def get(name):
                 try:
-                    return loader.get_source(None, name)[0][:1]
+                    return loader.get_source(None, name)[0]
                 except TemplateNotFound:
                     return None
             res, src = [], []
             for cn in c['seq']:
-                r = loader.type_to_template(getattr(pydsdl, cn) if hasattr(pydsdl, cn) else _extra_class(cn))
+                cls = getattr(pydsdl, cn) if hasattr(pydsdl, cn) else _extra_class(cn)
+                r = loader.type_to_template(cls)
                 res.append(None if r is None else r.as_posix())
-                src.append(None if r is None else get(r.name))
+                src.append(None if r is None else get(template_name(loader, cls, r)))
             out.append({'res': res, 'src': src, 'get': [get(n) for n in c.get('get', [])]})
         except Exception as ex:  # noqa
             out.append({'err': repr(ex)})
     return out
+
+
+class _Gen:
+    """just enough of a generator for the real DSDLCodeGenerator.filter_type_to_template(self, value)"""
+
+    def __init__(self, loader):
+        self.dsdl_loader = loader
+
+
+class _Blank(__import__("abc").ABC):
+    pass
+
+
+def template_name(loader, cls, fallback_path):
+    """the NAME _generate_type hands to env.get_template: the real filter_type_to_template applied to an object whose type is cls"""
+    from nunavut.jinja import DSDLCodeGenerator
+    try:
+        v = _Blank()
+        v.__class__ = cls          # abstract classes cannot be instantiated; the filter only looks at type(value)
+    except TypeError:
+        try:
+            v = object.__new__(cls)
+        except TypeError:
+            return fallback_path.name
+    return DSDLCodeGenerator.filter_type_to_template(_Gen(loader), v)
 
 
 def _extra_class(name):
